@@ -1,6 +1,6 @@
 //! Generational (SAGE-style) dynamic symbolic execution driver.
 use super::sf::{RNG_DRAWS, RNG_NONZERO, SF, SYM_RNG};
-use super::smt::{emit_query, eval, eval_cond, fr_dec, support, Query};
+use super::smt::{emit_query, emit_query_norm, eval, eval_cond, fr_dec, support, Query};
 use super::solver::{Ans, Session, Which};
 use super::term::{canon_eq, reset, Branch, Cond, Kind, Node, ARENA};
 use ark_bls12_381::Fr;
@@ -17,6 +17,9 @@ thread_local! {
     static LAST_PANIC: RefCell<String> = RefCell::new(String::new());
     static INPUT: RefCell<(Vec<Fr>, StdRng)> = RefCell::new((vec![], StdRng::seed_from_u64(0)));
     static DISCARD: RefCell<Option<String>> = RefCell::new(None);
+    /// replay mode: random-oracle outputs take their natural value (a hash of the concrete arguments)
+    /// instead of the value the solver chose for them
+    static NATURAL_RO: std::cell::Cell<bool> = std::cell::Cell::new(false);
 }
 
 /// Silence panic output and remember the source file of the last panic (line numbers are not part
@@ -81,7 +84,12 @@ pub fn sym_default(name: &str, default: Fr) -> SF {
 }
 /// Random-oracle output: non-zero, `bits`-bit range.
 pub fn sym_ro(name: &str, default: Fr, bits: u32) -> SF {
-    let v = clamp(next_value(|_| default), bits, true);
+    let mut v = clamp(next_value(|_| default), bits, true);
+    if NATURAL_RO.with(|c| c.get()) {
+        v = clamp(default, bits, true);
+        let idx = ARENA.with(|a| a.borrow().var_vals.len());
+        INPUT.with(|i| i.borrow_mut().0[idx] = v);
+    }
     SF::var_full(name, v, bits, true)
 }
 /// Symbolic RNG draw (blinding randomness).
@@ -191,6 +199,8 @@ pub struct Report {
     pub unknown_notes: Vec<String>,
     pub wall_s: f64,
     pub stopped: String,
+    pub oracle_only: usize,
+    pub negligible: usize,
 }
 impl Report {
     pub fn to_json(&self) -> Value {
@@ -202,7 +212,7 @@ impl Report {
             "max_path_len": self.max_path_len, "max_vars": self.max_vars, "exhaustive": self.complete,
             "frontier": self.frontier, "samples": self.samples, "xchecks": self.xchecks,
             "solver_disagreements": self.disagreements, "ro_fresh": self.ro_fresh, "ro_hits": self.ro_hits,
-            "ro_axioms": self.axioms, "unresolved_notes": self.unknown_notes, "wall_s": self.wall_s, "stopped": self.stopped,
+            "ro_axioms": self.axioms, "unresolved_notes": self.unknown_notes, "wall_s": self.wall_s, "stopped": self.stopped, "oracle_only_models": self.oracle_only, "assumed_oracle_generic": self.negligible,
         })
     }
 }
@@ -223,6 +233,18 @@ pub struct RunOut {
 
 /// One native execution of the driver on `input` (values for the symbolic inputs in creation order).
 pub fn run_once(f: &dyn Fn() -> Verdict, input: Vec<Fr>, seed: u64) -> RunOut {
+    run_once_mode(f, input, seed, false)
+}
+/// `natural_ro`: ignore the input's values for random-oracle outputs and use the oracle's own
+/// (hash-derived) values: a violation that survives this replay does not depend on the solver
+/// having chosen oracle outputs.
+pub fn run_once_mode(f: &dyn Fn() -> Verdict, input: Vec<Fr>, seed: u64, natural_ro: bool) -> RunOut {
+    NATURAL_RO.with(|c| c.set(natural_ro));
+    let out = run_once_inner(f, input, seed);
+    NATURAL_RO.with(|c| c.set(false));
+    out
+}
+fn run_once_inner(f: &dyn Fn() -> Verdict, input: Vec<Fr>, seed: u64) -> RunOut {
     reset();
     super::ro::reset();
     RNG_DRAWS.with(|c| c.set(0));
@@ -272,6 +294,7 @@ pub fn run_once(f: &dyn Fn() -> Verdict, input: Vec<Fr>, seed: u64) -> RunOut {
 }
 
 struct Solvers {
+    cvc5_n: Session,
     cvc5_x: Session,
     cvc5_a: Session,
     z3_x: Session,
@@ -281,6 +304,8 @@ struct Solvers {
 }
 
 enum Dec {
+    /// the alternative needs a non-trivial polynomial relation among independent random-oracle outputs
+    Negligible,
     Unsat(&'static str),
     Sat(Vec<Fr>, &'static str),
     Unknown(String),
@@ -307,6 +332,9 @@ fn model_to_input(q: &Query, vals: &[(u32, num_bigint::BigUint)], base: &[Fr]) -
             ni[sb.var as usize] = sb.scale * acc;
         }
     });
+    for (v, r) in &q.psubs {
+        ni[*v as usize] = r.eval(&ni);
+    }
     ni
 }
 
@@ -319,11 +347,26 @@ fn decide(s: &mut Solvers, conds: &[(Cond, bool)], flipped: Cond, base: &[Fr], r
         None => return Dec::Unknown("order comparison on a fraction".into()),
     };
     rep.axioms += qx.axioms;
-    // quick attempt on cvc5 alone: most queries are answered within milliseconds
+    // tier N (normal-form atoms) on its own session first: decides most obligations in milliseconds
+    let qn = ARENA.with(|a| emit_query_norm(&a.borrow(), conds));
+    let mut n_live = false;
+    if let Some(qn) = &qn {
+        if qn.oracle_only {
+            return Dec::Negligible;
+        }
+        n_live = s.cvc5_n.send(&qn.text, &qn.vars);
+        match s.cvc5_n.poll(std::time::Duration::from_millis(120)) {
+            Some(Ans::Unsat) => return Dec::Unsat("N-cvc5"),
+            Some(Ans::Sat(vals)) => return Dec::Sat(model_to_input(qn, &vals, base), "N-cvc5"),
+            Some(Ans::Unknown(_)) => n_live = false,
+            None => {}
+        }
+    }
+    // quick attempt on the DAG encoding
     s.cvc5_x.send(&qx.text, &qx.vars);
-    match s.cvc5_x.poll(std::time::Duration::from_millis(150)) {
-        Some(Ans::Unsat) => return Dec::Unsat("X-cvc5"),
-        Some(Ans::Sat(vals)) => return Dec::Sat(model_to_input(&qx, &vals, base), "X-cvc5"),
+    match s.cvc5_x.poll(std::time::Duration::from_millis(120)) {
+        Some(Ans::Unsat) => { s.cvc5_n.abort(); return Dec::Unsat("X-cvc5") }
+        Some(Ans::Sat(vals)) => { s.cvc5_n.abort(); return Dec::Sat(model_to_input(&qx, &vals, base), "X-cvc5") }
         _ => {}
     }
     let qa = ARENA.with(|a| emit_query(&a.borrow(), conds, None, true, false));
@@ -337,7 +380,20 @@ fn decide(s: &mut Solvers, conds: &[(Cond, bool)], flipped: Cond, base: &[Fr], r
     let deadline = std::time::Duration::from_millis(s.tl_ms);
     let step = std::time::Duration::from_millis(15);
     let mut result: Option<Dec> = None;
-    while t0.elapsed() < deadline && (x_live || a_live || z_live) {
+    while t0.elapsed() < deadline && (x_live || a_live || z_live || n_live) {
+        if n_live {
+            if let Some(a) = s.cvc5_n.poll(step) {
+                n_live = false;
+                match a {
+                    Ans::Unsat => result = Some(Dec::Unsat("N-cvc5")),
+                    Ans::Sat(vals) => result = Some(Dec::Sat(model_to_input(qn.as_ref().unwrap(), &vals, base), "N-cvc5")),
+                    Ans::Unknown(_) => {}
+                }
+            }
+        }
+        if result.is_some() {
+            break;
+        }
         if x_live {
             if let Some(a) = s.cvc5_x.poll(step) {
                 x_live = false;
@@ -370,6 +426,7 @@ fn decide(s: &mut Solvers, conds: &[(Cond, bool)], flipped: Cond, base: &[Fr], r
             break;
         }
     }
+    s.cvc5_n.abort();
     s.cvc5_x.abort();
     s.cvc5_a.abort();
     s.z3_x.abort();
@@ -410,6 +467,7 @@ pub fn explore(f: &dyn Fn() -> Verdict, seed: u64, lim: &Limits) -> Report {
     let t_start = Instant::now();
     let mut rep = Report::default();
     let mut solvers = Solvers {
+        cvc5_n: Session::new(Which::Cvc5, lim.tl_ms + 500),
         cvc5_x: Session::new(Which::Cvc5, lim.tl_ms + 500),
         cvc5_a: Session::new(Which::Cvc5, lim.tl_ms + 500),
         z3_x: Session::new(Which::Z3, lim.tl_ms + 500),
@@ -466,12 +524,25 @@ pub fn explore(f: &dyn Fn() -> Verdict, seed: u64, lim: &Limits) -> Report {
             }
             Verdict::Violation { key, msg } => {
                 rep.paths += 1;
+                // a violation counts only if it survives with the oracle's natural outputs
+                let nat = run_once_mode(f, out.assignment.clone(), seed, true);
+                let same = matches!(&nat.verdict, Verdict::Violation { key: k2, .. } if k2 == key);
+                // restore the arena of the original run for the queries below
+                let back = run_once(f, out.assignment.clone(), seed);
+                let _ = back;
+                if !same {
+                    rep.oracle_only += 1;
+                    if rep.unknown_notes.len() < 5 {
+                        rep.unknown_notes.push(format!("violation '{}' needs solver-chosen random-oracle outputs; with natural oracle outputs: {:?}", key, match &nat.verdict { Verdict::Hold => "holds".to_string(), Verdict::Discard(w) => format!("discarded ({})", w), Verdict::Violation{key,..} => format!("violation {}", key) }));
+                    }
+                } else {
                 rep.violations.push(json!({
                     "key": key, "msg": msg,
                     "inputs": out.assignment.iter().map(fr_dec).collect::<Vec<_>>(),
                     "names": out.names,
                     "path_len": out.path.len(),
                 }));
+                }
             }
         }
         rep.max_path_len = rep.max_path_len.max(out.path.len());
@@ -513,6 +584,10 @@ pub fn explore(f: &dyn Fn() -> Verdict, seed: u64, lim: &Limits) -> Report {
             rep.solver_ms += t0.elapsed().as_millis();
             rep.queries += 1;
             match dec {
+                Dec::Negligible => {
+                    rep.negligible += 1;
+                    *rep.tier.entry("assumed:oracle-generic".into()).or_insert(0) += 1;
+                }
                 Dec::Unsat(tier) => {
                     rep.unsat += 1;
                     *rep.tier.entry(format!("unsat:{}", tier)).or_insert(0) += 1;
@@ -568,12 +643,15 @@ pub fn explore(f: &dyn Fn() -> Verdict, seed: u64, lim: &Limits) -> Report {
                         if let Some(q) = ARENA.with(|a| emit_query(&a.borrow(), &conds, None, false, true)) {
                             let _ = std::fs::write(format!("{}/unk{}.smt2", dir, rep.unknown), format!("(set-logic ALL)\n{}(check-sat)\n", q.text));
                         }
+                        if let Some(q) = ARENA.with(|a| emit_query_norm(&a.borrow(), &conds)) {
+                            let _ = std::fs::write(format!("{}/unk{}n.smt2", dir, rep.unknown), format!("(set-logic ALL)\n{}(check-sat)\n", q.text));
+                        }
                     }
                 }
             }
         }
     }
-    if rep.unknown > 0 || rep.pins > 0 && false {
+    if rep.unknown > 0 || rep.oracle_only > 0 {
         rep.complete = false;
         if rep.stopped.is_empty() {
             rep.stopped = "unresolved alternatives".into();
